@@ -22,6 +22,8 @@ necessary to account for:
     may also differ.
 """
 
+import copy
+
 from numpy import exp, cos, sin
 
 from tangelo.toolboxes.operators import QubitOperator
@@ -91,6 +93,8 @@ def translate_c_to_qulacs(source_circuit, noise_model=None, save_measurements=Fa
     # Maps the gate information properly. Different for each backend (order, values)
     for gate in source_circuit._gates:
         if gate.name == 'CNOT' and len(gate.control) > 1:
+            # Rename a copy: the gates of the source circuit must not be modified
+            gate = copy.copy(gate)
             gate.name = 'CX'
         if gate.name in {"H", "X", "Y", "Z", "S", "T"}:
             (GATE_QULACS[gate.name])(target_circuit, gate.target[0])
